@@ -175,6 +175,13 @@ func NumUnconfirmedTxs(ctx *rpctypes.Context) (*ctypes.ResultUnconfirmedTxs, err
 // be added to the mempool either.
 // More: https://docs.tendermint.com/v0.34/rpc/#/Tx/check_tx
 func CheckTx(ctx *rpctypes.Context, tx types.Tx) (*ctypes.ResultCheckTx, error) {
+	// The check goes to the application on the mempool connection, behind the
+	// mempool's back. While a block is being committed (from the flush of that
+	// connection until the mempool was updated) no check may be started there:
+	// the executor holds the mempool's lock for that time.
+	env.Mempool.Lock()
+	defer env.Mempool.Unlock()
+
 	res, err := env.ProxyAppMempool.CheckTxSync(abci.RequestCheckTx{Tx: tx})
 	if err != nil {
 		return nil, err
